@@ -100,6 +100,34 @@ def main():
             print('%s %-8s %-40s %s' % ('ok  ' if ok else 'FAIL', m['property'], m['name'], msg if not ok else msg))
             if not ok:
                 fails += 1
+    # the confirmed seeded changes (seeded/<id>/patch.diff, written by independent agents) that were
+    # recorded as detected by a property's check must still be reported by it
+    import glob
+    for sd in sorted(glob.glob(os.path.join(VERIF, 'seeded', '*'))):
+        try:
+            meta = json.load(open(os.path.join(sd, 'meta.json')))
+        except Exception:
+            continue
+        sid = os.path.basename(sd)
+        for prop in meta.get('detected_by', []):
+            if (props and prop not in props) or (names and sid not in names):
+                continue
+            total += 1
+            d = scratch()
+            try:
+                pr = subprocess.run(['patch', '-p1', '-s', '-i', os.path.join(sd, 'patch.diff')], cwd=d, stdout=subprocess.PIPE, stderr=subprocess.STDOUT, text=True)
+                if pr.returncode != 0:
+                    skipped += 1
+                    print('%s %-8s %-40s %s' % ('skip', prop, 'seed ' + sid, 'cannot apply to this tree'))
+                    continue
+                env = dict(os.environ, VERIF_REPO=d, VERIF_SELFTEST='1')
+                q = subprocess.run([os.path.join(VERIF, 'check'), prop, '--tier', 'quick'], cwd=VERIF, env=env, stdout=subprocess.PIPE, stderr=subprocess.STDOUT, text=True)
+                ok = q.returncode == 1
+                print('%s %-8s %-40s %s' % ('ok  ' if ok else 'FAIL', prop, 'seed ' + sid, 'fired' if ok else 'expected exit 1, got %d: %s' % (q.returncode, q.stdout[-300:])))
+                if not ok:
+                    fails += 1
+            finally:
+                shutil.rmtree(d, ignore_errors=True)
     print('selftest: %d cases, %d failures, %d skipped' % (total, fails, skipped))
     if total and skipped * 2 > total:
         print('selftest: more than half of the cases do not apply to this tree')
